@@ -27,9 +27,9 @@ var condMap = map[string]gripql.Condition{
 }
 
 func Leaf(op, key string, arg interface{}) *Expr { return &Expr{Op: op, Key: key, Arg: arg} }
-func And(k ...*Expr) *Expr                      { return &Expr{Op: "and", Kids: k} }
-func Or(k ...*Expr) *Expr                       { return &Expr{Op: "or", Kids: k} }
-func Not(k *Expr) *Expr                         { return &Expr{Op: "not", Kids: []*Expr{k}} }
+func And(k ...*Expr) *Expr                       { return &Expr{Op: "and", Kids: k} }
+func Or(k ...*Expr) *Expr                        { return &Expr{Op: "or", Kids: k} }
+func Not(k *Expr) *Expr                          { return &Expr{Op: "not", Kids: []*Expr{k}} }
 
 func (e *Expr) IsLeaf() bool { _, ok := condMap[e.Op]; return ok }
 
